@@ -2,6 +2,8 @@
 against the interchanger-equivalence class computed by breadth-first closure under the REAL
 single-step interchange (both flags): soundness, legality of each yielded step, idempotence,
 canonicity on connected diagrams, NotImplementedError only for disconnected diagrams."""
+import itertools
+
 from discopy import monoidal
 from discopy.rewriting import InterchangerError
 from rtc import common
@@ -104,6 +106,7 @@ def check(rep, d):
         # every yielded step is one legal interchange of its predecessor
         prev = d
         try:
+            k = -1
             for k, step in enumerate(monoidal.Diagram.normalize(d, left=left)):
                 if key(step) not in neighbours(prev):
                     rep.fail('C06:normalize.step_legal', 'step %d is not a single interchange of its predecessor' % k, r)
@@ -111,6 +114,13 @@ def check(rep, d):
                 prev = step
                 if k > 60:
                     break
+            else:
+                # the trace is finite: it ends at the normal form, and the normal form has no move left in this direction
+                if prev != n:
+                    rep.fail('C06:nf.is_end_of_trace', 'normal_form(left=%r) is not the last diagram yielded by '
+                             'normalize(left=%r)' % (left, left), r)
+                if list(itertools.islice(monoidal.Diagram.normalize(n, left=left), 1)):
+                    rep.fail('C06:nf.no_move_left', 'normalize(left=%r) still rewrites the %s normal form' % (left, tag), r)
         except InterchangerError:
             rep.fail('C06:normalize.no_interchanger_error', 'normalize raised InterchangerError', r)
         if conn:
